@@ -191,6 +191,15 @@ func (e *Engine) emitWith(st *State, name, sub string, extraHyps []T, goal T, te
 	q.Props = append(q.Props, props...)
 	if cl != nil {
 		q.Clause = cl.Hash()
+	} else if len(props) > 0 {
+		// automatic obligation (lockset, order, alias, ...): it also belongs to the properties its function serves
+		if b := e.cs.Funcs[e.curFn]; b != nil {
+			for _, p := range b.Props() {
+				if !hasProp(q.Props, p) {
+					q.Props = append(q.Props, p)
+				}
+			}
+		}
 	}
 	if goal.S == "true" {
 		q.Text = "" // trivially discharged
